@@ -669,7 +669,15 @@ class HomeKitConnection:
                 self._last_connector_error = None
                 failed_host_count = len(self._pair_verify_failed_hosts)
                 try:
-                    return await self._connect_once()
+                    try:
+                        return await self._connect_once()
+                    except BaseException:
+                        # Whatever went wrong, a transport opened by this
+                        # attempt is of no use without a secure session: close
+                        # it so it is not leaked when the next attempt
+                        # replaces it.
+                        self._drop_transport()
+                        raise
 
                 except AuthenticationError as ex:
                     self._last_connector_error = ex
